@@ -124,13 +124,13 @@ theorem skip_rebase (o : List Obs) (b : Bool) (s : State) (n : Nat) :
     by_cases hlt : s.rcvdIdx < s.sendIdx
     · rw [if_pos hlt, if_pos hlt]
       cases lookupInfo s.info s.rcvdIdx with
-      | none => exact ih _
+      | none => exact ih { s with rcvdIdx := s.rcvdIdx + 1 }
       | some e =>
         simp only [h4]
         by_cases he : (e.res.isSome || up s e.w) = true
         · rw [if_pos he, if_pos he]
         · rw [if_neg he, if_neg he]
-          exact ih _
+          exact ih { s with info := eraseInfo s.info s.rcvdIdx, rcvdIdx := s.rcvdIdx + 1 }
     · rw [if_neg hlt, if_neg hlt]
 
 theorem markUnavailable_rebase (c : Cfg) (o : List Obs) (b : Bool) (s : State) (w : Nat) (sh : Bool) :
